@@ -165,6 +165,20 @@ CLAIMED = {
         "Trusted: Lean kernel; third-party libraries (observed); atime excluded from the comparison.",
         "DESIGN.md §7 C04",
     ),
+    "C06": (
+        "Lean 4 theorems: component-wise containment of the resolved destination (symlink-free file systems), refusal before any renamer call, with_name rules, the renamer's parent comparison, position-preservation under directory renames + instrumented runs in an enclosing sandbox with prefix-named decoy siblings and all input-directory spellings",
+        "Proved in Lean: a generated path that passes the check resolves (kernel walk) to a path having the input "
+        "directory as a component-wise prefix, on every symlink-free tree (and a witness that the string-prefix test is "
+        "not containment); an invalid name or an escaping path ends the run with the exit-1 outcome before any renamer "
+        "call for that file; with_name refuses empty/'.'/separator names and keeps the parent; FileRenamer refuses any "
+        "destination with another parent without touching anything; a directory rename keeps identity, kind, content "
+        "and relative position of everything beneath it and leaves everything else in place. Symlinked components and "
+        "input-directory spellings (relative, absolute, via symlink, ./..) are covered by instrumented real runs in an "
+        "enclosing sandbox with decoys; primitives, final trees and exit codes are compared with the model where modelled.",
+        "Trusted: Lean kernel; Path.resolve()/kernel resolution through symlinks (correspondence only); a custom path at "
+        "the prompt is user-chosen (only the name-mode parent rule applies).",
+        "DESIGN.md §7 C06",
+    ),
 }
 
 NOT_YET = "check not built yet in this snapshot of /verif (work in progress, see DESIGN.md §7)"
